@@ -65,6 +65,14 @@ def matrix(tier, rnd):
         else:
             s["parallel_ok"] = True
         add((s, {"cause": cause, "point": "after-failed-restore", "pending": "none", "causes": [cause]}))
+    # RestoreTerminal while the read loop of an earlier RestoreTerminal has not started to run yet (one processor, the two
+    # calls without a pause: an application restoring a terminal that an Exec had taken back meanwhile) - F14
+    for cause in ("quit", "kill"):
+        for kind in ("pipe", "ptyin"):
+            script = [P.W("started"), P.W("idle"), P.DO("release-terminal"), P.DO("restore-terminal", n=2), P.DO("sleep", us=30000),
+                      P.DO("send", msg=P.U(5)), P.W("idle"), P.DO("quit") if cause == "quit" else P.DO("kill"), P.W("returned")]
+            s = P.scenario(0, script, opts={"fps": 120}, inp={"kind": kind}, watchdog_ms=4000, isolate=True, gomaxprocs=1)
+            add((s, {"cause": cause, "point": "after-double-restore", "pending": "none", "causes": [cause]}))
     # an input message read but undeliverable while a cause strikes (the read loop gives up with a context error)
     for rep in range(10 if tier == "quick" else 60):
         for cause in ("cancel", "kill"):
@@ -118,6 +126,9 @@ def judge(res, metas, results, proofs_ok, broken, cex):
         sig = "C04:%s:%s@%s" % ("hang" if hang else "error", "+".join(m["causes"]), m["point"])
         what = ("Run did not return within the watchdog after %s struck at %s (pending: %s)" % ("+".join(m["causes"]), m["point"], m["pending"])) if hang else \
                ("Run returned %r after %s at %s; the property demands the class of one of these causes" % (r["run_err"], "+".join(m["causes"]), m["point"]))
+        if r.get("crashed"):
+            sig = "C04:crash:%s@%s" % ("+".join(m["causes"]), m["point"])
+            what = "the process died instead of Run returning (%s at %s): %s" % ("+".join(m["causes"]), m["point"], (r.get("crash_text") or "")[:300])
         if m.get("eof"):
             sig, what = "C04:eof", "the program ended (or stopped processing messages) after end of input alone"
         res.violation(sig, what, {"scenario_meta": m, "result": P.summarize(r), "model_counterexamples": cex})
